@@ -59,6 +59,7 @@ SaveCase ==
   [pages |-> [i \in 1..Len(pages) |-> R6(pages[i], {})], win |-> win,
    tree |-> SetToSeq({F4(f) : f \in Tree(pages, win)}),
    back |-> SetToSeq({B3(x) : x \in ReadBack(Tree(pages, win))}),
+   good |-> \A i \in 1..Len(pages) : pages[i] \in TitlesGood,
    injective |-> PathsInjective(pages, win),
    comesback |-> ComesBack(pages, win)]
 SGInit == SInit /\ g = [b |-> "", an |-> FALSE, d |-> ""]
